@@ -431,6 +431,7 @@ func propC19(c *Ctx) string {
 	// a packet stays whole on the wire only if the encoder ships exactly the slice it encoded and keeps the
 	// pooled buffer until the write returned
 	c03Ship(c)
+	c02Pool(c, "C19/POOL")
 	c.NotDecide("that no call blocks or panics after close / error / expired timeout (carrier, mercury.Writer and gorilla behaviour)", "that concurrent packets arrive whole (follows from LOCK only given a correct packet.Stream: C03/SHIP)", "flush-delay timing")
 	c.Assume("lock keys are instance-insensitive (one BaseConn)", "net.Conn / websocket.Conn Close unblock pending reads")
 	return c19Explanation
